@@ -14,6 +14,32 @@ FN_SUB_ERR = 'mqtt.client.pubsubs.MQTTProtocol._subscribeError'
 FN_UNSUB_ERR = 'mqtt.client.pubsubs.MQTTProtocol._unsubscribeError'
 
 
+@spec(opaque=True)
+def dup_clear(b: Bytes) -> bool:
+    """the DUP flag (bit 3 of the first byte) is not set (opaque: unfolded only where bytes are produced)"""
+    return (b[0] // 8) % 2 == 0
+
+
+@spec(opaque=True)
+def same_packet(now: Bytes, before: Bytes) -> bool:
+    """the same packet bytes, except that the DUP flag (bit 3 of the first byte) may have been set"""
+    return (len(now) == len(before) and now[1:] == before[1:]
+            and (now[0] == before[0] or (now[0] == before[0] + 8 and (before[0] // 8) % 2 == 0)))
+
+
+@spec
+def enc_ok(r: Ref['obj']) -> bool:
+    """I.enc: the stored bytes of a request are still the packet fixed when it was encoded (ghost g_base, never
+    written again), except that the DUP flag may have been set since"""
+    return is_bytes(r.g_base) and same_packet(as_bytes(r.encoded), as_bytes(r.g_base))
+
+
+@spec
+def base_fixed() -> bool:
+    """two-state: a g_base once set is never written again"""
+    return forall(lambda x: implies(old(is_bytes(obj_at(x).g_base)), unchanged(obj_at(x).g_base)))
+
+
 @spec
 def deferred_pending(r: Ref['obj']) -> bool:
     """r.deferred is an unfired Deferred owned by request r, exposing r's identifier"""
@@ -36,7 +62,7 @@ def alarm_ok(self: Ref['mqtt.client.pubsubs.MQTTProtocol'], r: Ref['obj'], f: in
 def pub_ok(self: Ref['mqtt.client.pubsubs.MQTTProtocol'], r: Ref['mqtt.pdu.PUBLISH']) -> bool:
     """a QoS 1/2 PUBLISH request awaiting its first acknowledgement"""
     return (isa(r, 'mqtt.pdu.PUBLISH') and is_int(r.msgId) and 1 <= r.msgId and r.msgId <= 65535
-            and is_int(r.qos) and 1 <= r.qos and r.qos <= 2 and is_bytes(r.encoded) and len(as_bytes(r.encoded)) >= 1
+            and is_int(r.qos) and 1 <= r.qos and r.qos <= 2 and is_bytes(r.encoded) and len(as_bytes(r.encoded)) >= 1 and enc_ok(r)
             and is_bool(r.retain) and is_str(r.topic) and is_bool(r.dup)
             and deferred_pending(r) and is_int(r.retries)
             and isa(r.interval, 'mqtt.client.interval.IntervalLinear') and wf_linear(r.interval)
@@ -47,7 +73,7 @@ def pub_ok(self: Ref['mqtt.client.pubsubs.MQTTProtocol'], r: Ref['mqtt.pdu.PUBLI
 def rel_ok(self: Ref['mqtt.client.pubsubs.MQTTProtocol'], r: Ref['mqtt.pdu.PUBREL']) -> bool:
     """a PUBREL awaiting PUBCOMP; it carries the Deferred of the publish() call"""
     return (isa(r, 'mqtt.pdu.PUBREL') and is_int(r.msgId) and 1 <= r.msgId and r.msgId <= 65535
-            and is_bytes(r.encoded) and len(as_bytes(r.encoded)) >= 1
+            and is_bytes(r.encoded) and len(as_bytes(r.encoded)) >= 1 and enc_ok(r)
             and deferred_pending(r) and is_int(r.retries)
             and isa(r.interval, 'mqtt.client.interval.Interval') and wf_interval(r.interval)
             and alarm_ok(self, r, fn('mqtt.client.pubsubs.MQTTProtocol._pubrelError')))
@@ -56,7 +82,7 @@ def rel_ok(self: Ref['mqtt.client.pubsubs.MQTTProtocol'], r: Ref['mqtt.pdu.PUBRE
 @spec
 def sub_ok(self: Ref['mqtt.client.pubsubs.MQTTProtocol'], r: Ref['mqtt.pdu.SUBSCRIBE']) -> bool:
     return (isa(r, 'mqtt.pdu.SUBSCRIBE') and is_int(r.msgId) and 1 <= r.msgId and r.msgId <= 65535
-            and is_bytes(r.encoded) and len(as_bytes(r.encoded)) >= 1 and deferred_pending(r)
+            and is_bytes(r.encoded) and len(as_bytes(r.encoded)) >= 1 and enc_ok(r) and deferred_pending(r)
             and isa(r.interval, 'mqtt.client.interval.Interval') and wf_interval(r.interval)
             and alarm_ok(self, r, fn('mqtt.client.pubsubs.MQTTProtocol._subscribeError')))
 
@@ -64,7 +90,7 @@ def sub_ok(self: Ref['mqtt.client.pubsubs.MQTTProtocol'], r: Ref['mqtt.pdu.SUBSC
 @spec
 def unsub_ok(self: Ref['mqtt.client.pubsubs.MQTTProtocol'], r: Ref['mqtt.pdu.UNSUBSCRIBE']) -> bool:
     return (isa(r, 'mqtt.pdu.UNSUBSCRIBE') and is_int(r.msgId) and 1 <= r.msgId and r.msgId <= 65535
-            and is_bytes(r.encoded) and len(as_bytes(r.encoded)) >= 1 and deferred_pending(r)
+            and is_bytes(r.encoded) and len(as_bytes(r.encoded)) >= 1 and enc_ok(r) and deferred_pending(r)
             and isa(r.interval, 'mqtt.client.interval.Interval') and wf_interval(r.interval)
             and alarm_ok(self, r, fn('mqtt.client.pubsubs.MQTTProtocol._unsubscribeError')))
 
@@ -83,6 +109,7 @@ def queued_ok(r: Ref['mqtt.pdu.PUBLISH']) -> bool:
     return (isa(r, 'mqtt.pdu.PUBLISH') and is_bytes(r.encoded) and len(as_bytes(r.encoded)) >= 1
             and is_int(r.qos) and 0 <= r.qos and r.qos <= 2 and is_bool(r.retain) and is_str(r.topic) and is_bool(r.dup)
             and isa(r.deferred, 'Deferred') and is_unset(r.alarm)
+            and not r.dup and dup_clear(as_bytes(r.encoded)) and is_bytes(r.g_base) and r.encoded == r.g_base
             and ((r.qos == 0 and is_none(r.msgId) and is_none(r.interval))
                  or (r.qos > 0 and is_int(r.msgId) and 1 <= r.msgId and r.msgId <= 65535 and deferred_pending(r)
                      and is_int(r.retries) and isa(r.interval, 'mqtt.client.interval.IntervalLinear') and wf_linear(r.interval))))
